@@ -37,7 +37,7 @@ T = {
  "C12-1": ("C12", "last edit of a flush moves a chunk boundary strictly inside an old chunk", "missed", "", "value-level: chunker resynchronisation arithmetic (declared not decided by C12)"),
  "C12-2": ("C12", "convergent edit on both sides + right side's next difference is its last chunk + left added keys past the right's end", "missed", "", "value-level: patch-merge arithmetic (C14/C30 territory, not applicable)"),
  "C15-1": ("C15", "an indexed YEAR column holding 0000", "strengthened", "C15 cmp-read-agrees-with-get", "the rule existed but its reader table descended into codec internals (readYear -> readUint8) and so accepted the raw-byte reader; table construction fixed"),
- "C15-2": ("C15", "shared builder: write >k fields, BuildPrefix(k), then build a row leaving one of those fields NULL", "missed", "", "state-reset completeness of TupleBuilder is not among the C15 rules; no production caller triggers it"),
+ "C15-2": ("C15", "shared builder: write >k fields, BuildPrefix(k), then build a row leaving one of those fields NULL", "strengthened", "C15 builder-reset-complete", "state-reset completeness of TupleBuilder was not among the first C15 rules"),
  "C23-1": ("C23", "a dirty transaction with no net change (savepoint+rollback, insert+delete) committing after a concurrent commit", "first-run", "C23 merge-skipped-only-if-equal", ""),
  "C23-2": ("C23", "adjacent leaf-chunk boundary keys edited by two transactions on the fast merge path", "missed", "", "value-level: `cmp > 0` vs `>= 0` in the prolly patch merge (C14/C30, not applicable)"),
  "C24-1": ("C24", "foreign_key_checks=0, a commit-time merge recording both a non-FK and an FK violation with the FK one sorting last", "first-run", "C24 violations-need-force", ""),
